@@ -18,6 +18,7 @@ import (
 	k8stesting "k8s.io/client-go/testing"
 
 	kubesecrets "istio.io/istio/pilot/pkg/credentials/kube"
+	"istio.io/istio/pilot/pkg/features"
 	"istio.io/istio/pilot/pkg/model"
 	pxds "istio.io/istio/pilot/pkg/xds"
 	v3 "istio.io/istio/pilot/pkg/xds/v3"
@@ -74,13 +75,14 @@ func installSAR(cs *fake.Clientset, p *sarPolicy) {
 }
 
 type sdsSUT struct {
-	specs map[string]*clusterSpec
-	order []string
-	stop  chan struct{}
-	creds *kubesecrets.Multicluster
-	cfg   string
-	cache model.XdsCache
-	gen   *pxds.SecretGen
+	specs  map[string]*clusterSpec
+	order  []string
+	stop   chan struct{}
+	creds  *kubesecrets.Multicluster
+	cfg    string
+	cache  model.XdsCache
+	gen    *pxds.SecretGen
+	remote bool
 }
 
 func (s *sdsSUT) close() {
@@ -116,8 +118,12 @@ func (s *sdsSUT) spec(id string) *clusterSpec {
 	return c
 }
 
-func (s *sdsSUT) start(cfg string) {
+func (s *sdsSUT) start(cfg string, remoteCreds bool) {
 	s.cfg = cfg
+	s.remote = remoteCreds
+	// read by kube.NewMulticluster's cluster-added callback, i.e. while the clusters are added below
+	features.EnableRemoteCredentialsController = remoteCreds
+	defer func() { features.EnableRemoteCredentialsController = true }()
 	s.stop = make(chan struct{})
 	mc := multicluster.NewFakeController()
 	s.creds = kubesecrets.NewMulticluster(cluster.ID(cfg), mc)
@@ -305,7 +311,7 @@ func (s *sdsSUT) apply(f []string) string {
 		s.spec(wire.Dec(f[1])).sarErr = true
 		return "ok"
 	case "start":
-		s.start(wire.Dec(f[1]))
+		s.start(wire.Dec(f[1]), len(f) < 3 || f[2] == "1")
 		return "ok"
 	case "clear":
 		if s.gen != nil {
@@ -329,8 +335,10 @@ func (s *sdsSUT) apply(f []string) string {
 // ---------------------------------------------------------------- stream sds: generator
 
 var (
-	storeNs    = []string{"ns1", "ns2", "istio-system"}
-	storeNames = []string{"a", "b", "a-cacert", "tricky-cacert", "gw"}
+	storeNs = []string{"ns1", "ns2", "istio-system"}
+	// names with the CA suffix at the end, in the middle, at the start and doubled: the filter's and the
+	// generator's notion of "CA-only" must agree on every one of them
+	storeNames = []string{"a", "b", "a-cacert", "tricky-cacert", "gw", "a-cacert-v2", "-cacert-x", "x-cacert-cacert"}
 	cmNames    = []string{"cm", "cm2-cacert"}
 	sdsSAs     = []string{"sa1", "sa2"}
 )
@@ -407,7 +415,11 @@ func genWorld(r *wire.Rng, out *wire.Out) (clusters []string, cfg string) {
 	if r.Chance(1, 10) {
 		out.Line("sarerr", wire.Pick(r, clusters))
 	}
-	out.Line("start", cfg)
+	if r.Chance(1, 10) {
+		out.Line("start", cfg, "0") // PILOT_ENABLE_REMOTE_CREDENTIALS_CONTROLLER=false
+	} else {
+		out.Line("start", cfg)
+	}
 	return clusters, cfg
 }
 
@@ -456,8 +468,15 @@ func hostileName(r *wire.Rng, p genProxy) string {
 	}
 	n := wire.Pick(r, storeNames)
 	suf := func(x string) string {
-		if r.Chance(1, 4) {
+		switch r.Intn(12) {
+		case 0, 1, 2:
 			return x + "-cacert"
+		case 3:
+			return x + "-cacert-v2" // suffix in the middle
+		case 4:
+			return "-cacert-" + x // suffix at the start
+		case 5:
+			return x + "-cacert-cacert"
 		}
 		return x
 	}
@@ -653,14 +672,24 @@ func (s *sdsSUT) oracleGen(f []string) string {
 			return "payload-without-origin " + wire.Enc(v.name)
 		}
 		sp := s.specs[g.cluster]
-		authorised := sp != nil && !sp.sarErr && sp.allow.Contains(sa.MakeUsername(g.vid.Namespace, g.vid.ServiceAccount))
+		authorised := sp != nil && !sp.sarErr && (s.remote || g.cluster == s.cfg) && sp.allow.Contains(sa.MakeUsername(g.vid.Namespace, g.vid.ServiceAccount))
 		switch {
 		case v.hasKey:
 			ko, ok2 := parseOrigin(v.key)
 			if !ok2 || ko.kind != "S" || ko.cluster != o.cluster || ko.ns != o.ns || ko.name != o.name || !strings.HasSuffix(ko.field, "key") {
 				return "key-and-certificate-of-different-secrets " + wire.Enc(v.name)
 			}
-			own := strings.HasPrefix(v.name, "kubernetes://") && o.ns == g.vid.Namespace && authorised && (o.cluster == g.cluster || o.cluster == s.cfg)
+			// the secret a kubernetes:// name denotes: second path segment, or the only one
+			denoted := ""
+			if rest, ok := strings.CutPrefix(v.name, "kubernetes://"); ok {
+				if p := strings.Split(rest, "/"); len(p) > 1 {
+					denoted = p[1]
+				} else {
+					denoted = p[0]
+				}
+			}
+			own := strings.HasPrefix(v.name, "kubernetes://") && o.name == denoted && o.ns == g.vid.Namespace && authorised &&
+				((o.cluster == g.cluster && s.remote) || o.cluster == s.cfg)
 			granted := refs.Contains(v.name) && refDenotes(v.name, o, false) && o.cluster == s.cfg
 			if !own && !granted {
 				return "private-key-to-unentitled-proxy " + wire.Enc(v.name) + " origin=" + wire.Enc(v.key)
